@@ -1,6 +1,6 @@
 (** C05 — lines end only at CRLF; independence of TCP segmentation.
     Statements only; proofs in Proofs/NetReadProofs.v. *)
-From Qv Require Import Common.Bytes Gen.GenNetio Model.NetRead Spec.LineSpec Proofs.NetReadProofs.
+From Qv Require Import Common.Bytes Gen.GenNetio Model.NetRead Spec.LineSpec Proofs.NetReadProofs Proofs.NetReadClean.
 
 (** For every byte stream and every way of cutting it into read() results:
     each line the reader hands out is a piece [l] of the stream that is
@@ -14,6 +14,16 @@ Theorem C05_line_shape : forall stream cuts l lft,
   line_at stream l lft /\ no_crlf l /\ length l + 3 <= LINEINBUF.
 Proof. exact reader_line_shape. Qed.
 Print Assumptions C05_line_shape.
+
+(** Independence of TCP segmentation.  For every stream in which CR and LF occur only as the pair CR LF (what a
+    conforming client sends; [clean_stream]), and for EVERY way of cutting it into segments, the reader produces the
+    same sequence of items, namely [spec_items stream]: the stream is cut at its CRLF pairs and nowhere else, a line
+    of at most LINEINBUF-3 octets is handed out, a longer one gives exactly one "line too long" error and the reader
+    continues behind its CRLF, an unterminated tail gives nothing. *)
+Theorem C05_schedule_independent_clean : forall stream cuts, clean_stream stream = true ->
+  map fst (run_reader stream cuts) = spec_items stream.
+Proof. exact reader_schedule_independent. Qed.
+Print Assumptions C05_schedule_independent_clean.
 
 (** The property as worded also demands (a) that no part of a malformed line is
     handed out as a line — a line starts at the stream start or right after a
@@ -37,6 +47,11 @@ Proof.
   vm_compute in H. discriminate.
 Qed.
 Print Assumptions C05_schedule_independent_refuted.
+
+Example C05_clean_nonvacuous :
+  clean_stream (repeat 97%N 1000 ++ [13; 10; 98; 13; 10; 99]%N) = true
+  /\ spec_items (repeat 97%N 1000 ++ [13; 10; 98; 13; 10; 99]%N) = [E2big; Line [98%N]; Dead].
+Proof. split; vm_compute; reflexivity. Qed.
 
 Example C05_nonvacuous :
   In (Line [82; 83; 69; 84]%N, 0) (run_reader w_resync [3; 1; 2]).
